@@ -66,6 +66,19 @@ func (e *Enc) callCommon(fr *Frame, st *State, cc *ssa.CallCommon, fnv *Val, arg
 			key := fmt.Sprintf("call:%s@%d", fr.curCallClass, r)
 			for i, cl := range fr.contract.CallAsserts[key] {
 				env := e.envFor(fr, st)
+				// the actual arguments of the call are visible as arg1 .. argN (and recv for an interface method call),
+				// unless the function has variables of these names
+				for ai, a := range args {
+					n := fmt.Sprintf("arg%d", ai+1)
+					if _, taken := env.vars[n]; !taken && a != nil && a.Loc == nil && a.Clos == nil {
+						env.vars[n] = a
+					}
+				}
+				if cc.IsInvoke() {
+					if _, taken := env.vars["recv"]; !taken {
+						env.vars["recv"] = e.val(fr, cc.Value)
+					}
+				}
 				g, err := env.evalBool(cl.E)
 				if err != nil {
 					e.unsupportedf("%s assert %s: %v", key, cl.Src, err)
